@@ -184,7 +184,8 @@ class Run:
             'coverage': cov, 'assumptions': self.assumptions, 'wall_s': round(wall, 2),
             'violations': len(self.violations),
         }
-        path = os.path.join(VERIF, 'evidence', f'{self.pid}.json')
+        path = os.path.join(os.environ.get('VERIF_EVIDENCE_DIR') or os.path.join(VERIF, 'evidence'), f'{self.pid}.json')
+        os.makedirs(os.path.dirname(path), exist_ok=True)
         with open(path, 'w') as f:
             json.dump(ev, f, indent=1, default=str)
         if self.violations:
